@@ -70,6 +70,52 @@ pub struct GenericRule<'a> {
   pub args: Vec<Type1<'a>>,
 }
 
+/// Resolve a generic parameter of the rule being evaluated to the argument it
+/// was instantiated with.
+///
+/// Parameters are looked up by name in the instantiated rule. An argument that
+/// is itself a bare parameter of the instantiating rule (`g0<t> = g1<t>`, or
+/// `g0<t, u> = g1<u, t>`) must be read in the scope of that rule, otherwise
+/// `t` resolves to `t` (or `t` to `u` to `t`) forever. Such an argument is
+/// followed into the nearest rule pushed earlier that has a parameter of that
+/// name.
+pub fn resolve_generic_param<'a>(
+  generic_rules: &[GenericRule<'a>],
+  rule: &str,
+  param: &str,
+) -> Option<Type1<'a>> {
+  let mut pos = generic_rules.iter().position(|gr| gr.name == rule)?;
+  let mut param = param;
+  loop {
+    let gr = &generic_rules[pos];
+    let idx = gr.params.iter().position(|p| *p == param)?;
+    let arg = gr.args.get(idx)?;
+    let forwarded = match &arg.type2 {
+      Type2::Typename {
+        ident,
+        generic_args: None,
+        ..
+      } if arg.operator.is_none() && ident.socket.is_none() => Some(ident.ident),
+      _ => None,
+    };
+    let outer = forwarded.and_then(|name| {
+      generic_rules[..pos]
+        .iter()
+        .rposition(|earlier| earlier.params.contains(&name))
+        .map(|outer_pos| (outer_pos, name))
+    });
+    match outer {
+      Some((outer_pos, name)) => {
+        pos = outer_pos;
+        param = name;
+      }
+      // a self-reference with no outer binding would still loop
+      None if forwarded == Some(param) => return None,
+      None => return Some(arg.clone()),
+    }
+  }
+}
+
 /// Shared validation state used by all format-specific validators.
 ///
 /// This struct contains the common CDDL AST tracking fields that are
